@@ -405,7 +405,11 @@ class Discharger:
                 return True, "sort key ends with the element itself (no ties)"
             if norm(body) == arg:
                 return True, "identity key"
-        k = (mod.relpath, fi.qualname if fi else "<module>", f"key={norm(key)}")
+        ktxt = norm(key)
+        if isinstance(key, ast.Lambda) and isinstance(key.body, ast.Tuple) and len(key.body.elts) == 1:
+            # a one-element tuple orders exactly as its element
+            ktxt = norm(ast.Lambda(args=key.args, body=key.body.elts[0]))
+        k = (mod.relpath, fi.qualname if fi else "<module>", f"key={ktxt}")
         if k in KEY_ALLOW:
             self.allow_hits.append((k, getattr(key, "lineno", 0), "sort key accepted by table"))
             return True, KEY_ALLOW[k]
@@ -560,8 +564,14 @@ class Discharger:
         if any(isinstance(x, (ast.Break, ast.Return)) for x in ast.walk(lp)):
             return False
         rets = [r for r in walk_no_nested(fi.node) if isinstance(r, ast.Return) and r.value is not None]
-        return bool(rets) and all((isinstance(r.value, ast.Call) and norm(r.value.func) == "sorted") or self.oa.is_unordered(fi, mod, r.value)
-                                  for r in rets)
+        def _in_sorted_order(v: ast.AST) -> bool:
+            if isinstance(v, ast.Call) and norm(v.func) == "sorted":
+                return True
+            # [T[k] for k in sorted(T)]: the entries of a table, in the order of its sorted keys
+            return isinstance(v, (ast.ListComp, ast.GeneratorExp)) and len(v.generators) == 1 and not v.generators[0].ifs \
+                and isinstance(v.generators[0].iter, ast.Call) and norm(v.generators[0].iter.func) == "sorted" \
+                and not v.generators[0].iter.keywords and len(v.generators[0].iter.args) == 1
+        return bool(rets) and all(_in_sorted_order(r.value) or self.oa.is_unordered(fi, mod, r.value) for r in rets)
 
     def _only_read_sorted_closure(self, f, name: str) -> bool:
         """`name` is a local of an enclosing function; all its reads (there and in the closures) are membership tests or inside
@@ -597,6 +607,21 @@ class Discharger:
                 continue
             if isinstance(par, ast.Subscript) and par.value is x and isinstance(par.ctx, ast.Store):
                 continue
+            # `name[k]` for k running over sorted(name): the entries are taken in sorted key order
+            if isinstance(par, ast.Subscript) and par.value is x and isinstance(par.ctx, ast.Load) and isinstance(par.slice, ast.Name):
+                k = par.slice.id
+                up, bound = mod.parents.get(par), False
+                while up is not None and not isinstance(up, (ast.FunctionDef, ast.AsyncFunctionDef, ast.Lambda)):
+                    gens = up.generators if isinstance(up, (ast.ListComp, ast.GeneratorExp, ast.SetComp, ast.DictComp)) else (
+                        [up] if isinstance(up, ast.For) else [])
+                    for g_ in gens:
+                        tg_, it_ = (g_.target, g_.iter)
+                        if isinstance(tg_, ast.Name) and tg_.id == k and isinstance(it_, ast.Call) and norm(it_.func) == "sorted" and it_.args \
+                                and norm(it_.args[0]) in (name, f"{name}.keys()") and not it_.keywords:
+                            bound = True
+                    up = mod.parents.get(up)
+                if bound:
+                    continue
             cur, ok = x, False
             while cur is not None and not isinstance(cur, ast.stmt):
                 if isinstance(cur, ast.Call) and norm(cur.func) == "sorted":
